@@ -74,6 +74,7 @@ impl Prop for Rejections {
     }
     fn judge(&self, c: &RejectCase) -> Outcome {
         let mut f = Func {
+            more: vec![],
             sty: 0,
             vis: true,
             name: "f".into(),
